@@ -52,6 +52,13 @@ func appendNextToken(l *LLk) {
 	l.tkns = append(l.tkns, lexer.Token{Type: lexer.ItemEOF})
 }
 
+// drain receives and discards the tokens the lexer has not delivered yet, so
+// that the lexer goroutine feeding the LLk runs to its end and exits.
+func (l *LLk) drain() {
+	for range l.c {
+	}
+}
+
 // Current returns the current token being processed.
 func (l *LLk) Current() *lexer.Token {
 	return &l.tkns[0]
